@@ -12,7 +12,9 @@ RULE = ("histories of 20-90 Vgroup operations on one file (Vattach(-1)/Vattach/V
         "with duplicates, Vinsert of vgroup and vdata handles, Vdeletetagref of first/middle/last/duplicate/absent "
         "members, Vdelete/VSdelete, reopen) with observers Vntagrefs/Vgettagrefs/Vgettagref/Vinqtagref/Vnrefs/"
         "Vgetname/Vgetclass/Vinquire/Visvg/Visvs/Vlone/VSlone/Vgetid/VSgetid/Vfind/Vfindclass/VSfind/VSfindclass/"
-        "Vgetvgroups interleaved, through still-open handles and after detach (in random order) and reopen; five "
+        "Vgetvgroups (arrays and count-only)/VSgetvdatas/VSofclass (file id and vgroup id, incl. internal and chunk-table "
+        "classes)/Ventries/VQuerytag/Vgisinternal/Vflocate interleaved, VHmakegroup with duplicate pairs (adjacent, apart, "
+        "same ref under another tag), reopen through Vfinish+Hclose and through Vclose/Vopen, through still-open handles and after detach (in random order) and reopen; five "
         "generator profiles (edit, growth, names, hierarchy, codec); all choices from one PRNG (VERIF_SEED); a light "
         "shadow state only steers weights; reference numbers are taken from the library and only checked for "
         "freshness.  A history is non-trivial when it edits a member list and reads it back after a reopen; "
@@ -33,6 +35,8 @@ ASSUMPTIONS = ["domain: all Vgroup/Vdata handles are detached before the file is
 VG, VH = 1965, 1962
 NAME_LENS = [0, 1, 2, 5, 12, 31, 63, 64, 65, 100, 127, 128, 129, 255, 256, 257, 300]
 INTERNAL = [b"Var0.0", b"Dim0.0", b"UDim0.0", b"CDF0.0", b"RIG0.0", b"RI0.0"]
+INTERNAL_VS = [b"DimVal0.0", b"DimVal0.1", b"Attr0.0", b"SDSVar", b"CoordVar", b"_HDF_CHK_TBL_", b"_HDF_CHK_TBL_0",
+               b"RIATTR0.0N", b"RIATTR0.0C"]
 
 
 def hexs(b):
@@ -133,7 +137,25 @@ def gen_history(r, name, profile):
             h = r.choice(gs) if s_only is None else s_only
             k = sh.gh[h][0]
             mem = sh.objs[k]["members"]
-            c = r.randrange(13)
+            c = r.randrange(20)
+            if c >= 13:
+                vcls = [sh.objs[v]["cls"] for v in sh.alive("s") if sh.objs[v]["cls"]]
+                if c == 13:
+                    L.append("vsgetvdatasg %d %d %d" % (h, r.choice([0, 0, 0, 1, 2, 5]), r.choice([0, 1, 2, 3, 10])))
+                elif c == 14:
+                    q = r.choice(vcls) if vcls and r.random() < 0.7 else r.choice(INTERNAL_VS + [b"zz"])
+                    L.append("vsofclassg %d %s %d %d" % (h, hexs(q), r.choice([0, 0, 0, 1, 2]), r.choice([0, 1, 2, 10])))
+                elif c == 15:
+                    L.append("countvgroupsg %d %d" % (h, r.choice([0, 0, 1, 2, 4])))
+                elif c == 16:
+                    L.append("querytag %d" % h)
+                elif c == 17:
+                    L.append("gisinternal %d" % h)
+                elif c == 18:
+                    L.append("flocate %d %s" % (h, r.choice(["66", "66", "67", "7a7a"])))
+                else:
+                    L.append("vsgetvdatasg %d 0 64" % h)
+                return
             if c == 0:
                 L.append("ntagrefs %d" % h)
             elif c == 1:
@@ -165,7 +187,19 @@ def gen_history(r, name, profile):
             else:
                 L.append("msize %d" % h)
             return
-        c = r.randrange(12)
+        c = r.randrange(17)
+        if c >= 12:
+            vcls = [sh.objs[v]["cls"] for v in sh.alive("s") if sh.objs[v]["cls"]]
+            if c == 12:
+                L.append("vsgetvdatasf %d %d" % (r.choice([0, 0, 0, 1, 2, 7]), r.choice([0, 1, 2, 3, 10, 40])))
+            elif c == 13:
+                q = r.choice(vcls) if vcls and r.random() < 0.7 else r.choice(INTERNAL_VS + [b"zz"])
+                L.append("vsofclassf %s %d %d" % (hexs(q), r.choice([0, 0, 0, 1, 2]), r.choice([0, 1, 2, 10])))
+            elif c == 14:
+                L.append("countvgroupsf %d" % r.choice([0, 0, 0, 1, 3]))
+            else:
+                L.append("ventries %s" % r.choice(["0", "-1", reftok(), reftok()]))
+            return
         if c == 0:
             L.append("lone %d" % r.choice([0, 1, 3, 40]))
         elif c == 1:
@@ -210,8 +244,10 @@ def gen_history(r, name, profile):
             L.append("getname 15")
             L.append("getclass 15")
             L.append("msize 15")
+            if r.random() < 0.5:
+                L.extend(["vsgetvdatasg 15 0 64", "getvgroupsg 15 0 64"])
             L.append("vgdetach 15")
-        L.extend(["iter", "vsiter", "getvgroupsf 0 64"])
+        L.extend(["iter", "vsiter", "getvgroupsf 0 64", "vsgetvdatasf 0 64"])
         if final or r.random() < 0.25:
             L.extend(["lone 64", "vslone 64"])
 
@@ -233,6 +269,29 @@ def gen_history(r, name, profile):
         k = r.choices(kinds, weights=w)[0]
         if not sh.alive("g") and k not in ("new", "vsnew", "obs"):
             k = "new"
+        if k == "new" and r.random() < 0.3 and len(sh.alive("g")) < 10:
+            # VHmakegroup: a whole vgroup from tag/ref arrays, duplicates (adjacent, apart, same ref other tag) included
+            lab = sh.next
+            sh.next += 1
+            n = r.choice([0, 1, 2, 3, 5, 8, 8, 66])
+            pool = [(tagpick(), reftok()) for _ in range(max(1, min(n, 4)))]
+            mem = []
+            for _ in range(n):
+                x = r.random()
+                if mem and x < 0.25:
+                    mem.append(mem[-1])                          # adjacent duplicate
+                elif mem and x < 0.45:
+                    mem.append(r.choice(mem))                    # duplicate further back
+                elif mem and x < 0.55:
+                    mem.append((tagpick(), mem[-1][1]))          # same ref under another tag
+                else:
+                    mem.append(r.choice(pool) if r.random() < 0.5 else (tagpick(), reftok()))
+            nm = None if r.random() < 0.2 else rname(r, long_names)
+            cl = None if r.random() < 0.4 else (r.choice(INTERNAL) if r.random() < 0.15 else rname(r))
+            L.append("vhmakegroup %s %s =%d%s" % ("~" if nm is None else hexs(nm), "~" if cl is None else hexs(cl), lab,
+                                                  "".join(" %d %s" % p for p in mem)))
+            sh.objs[lab] = dict(kind="g", alive=True, members=list(mem), name=nm or b"", cls=cl or b"", acc=False)
+            continue
         if k == "new":
             h = free_g()
             if h is None or len(sh.alive("g")) >= 10:
@@ -375,6 +434,8 @@ def gen_history(r, name, profile):
             lab = sh.next
             sh.next += 1
             nm, cl = rname(r) or b"v", rname(r)
+            if r.random() < 0.3:
+                cl = r.choice(INTERNAL_VS) + (b"" if r.random() < 0.6 else b"7")
             if r.random() < 0.3 and sh.alive("s"):
                 nm = sh.objs[r.choice(sh.alive("s"))]["name"]      # duplicate vdata names
             if r.random() < 0.7:
@@ -390,7 +451,7 @@ def gen_history(r, name, profile):
                 sh.objs[v]["alive"] = False
         elif k == "reopen":
             detach_all(r.random() < 0.5)
-            L.append("reopen")
+            L.append(r.choice(["reopen", "reopen", "reopen v"]))
             if r.random() < 0.5:
                 dump_all()
         else:
@@ -473,7 +534,7 @@ def gen_codec_history(r, name):
 # running
 # --------------------------------------------------------------------------------------------------
 
-CREATE = {"vgnew": 2, "vsnew": 4, "vsnewempty": 3}      # op -> index of the "=k" label token
+CREATE = {"vgnew": 2, "vsnew": 4, "vsnewempty": 3, "vhmakegroup": 3}      # op -> index of the "=k" label token
 
 
 def resolve(hist, rout):
@@ -634,7 +695,22 @@ def replay_text(kind, small, flat, res, R, X, j, rc, xname):
          "#   %-13s: %s" % (xname, (X[j] if j < len(X) else "?")[:400])])
 
 
+def check_api_driven(ctx):
+    """the functions theorem api_accounted lists as driven must really be called by the harness"""
+    txt = open(os.path.join(vc.VERIF, "coq", "VGProofs.v")).read()
+    m = re.search(r"Definition api_driven : list string :=\s*\[(.*?)\]%string", txt, flags=re.S)
+    names = re.findall(r'"([A-Za-z_0-9]+)"', m.group(1)) if m else []
+    har = open(os.path.join(vc.VERIF, "harness", "drive_vg.c")).read()
+    missing = [n for n in names if not re.search(r"\b%s\s*\(" % re.escape(n), har)]
+    if not names or missing:
+        ctx.violation("entry points listed as driven are not called by harness/drive_vg.c: %s" % (missing or "list not found"),
+                      "# C08: api_driven (coq/VGProofs.v) vs harness/drive_vg.c\nmissing: %s" % " ".join(missing),
+                      found=False, suffix="txt")
+    ctx.corr("api", entry_points_driven=len(names), not_called=missing)
+
+
 def run(ctx):
+    check_api_driven(ctx)
     r = ctx.rng
     corpus = []
     cdir = os.path.join(vc.VERIF, "corpus", "C08")
@@ -674,7 +750,7 @@ def run(ctx):
         nontriv = False
         edited = any(l.split()[0] in ("addtagref", "addmany", "insertvg", "insertvs", "deltagref") for l in h)
         for l, x in zip(h, seg):
-            if l == "reopen":
+            if l.startswith("reopen"):
                 seen_reopen = True
             if seen_reopen and edited and l.startswith("gettagrefs") and x.startswith("ok") and x != "ok 0":
                 nontriv = True
